@@ -7,6 +7,7 @@ func init() {
 		ID:    "C05",
 		Title: "Text outside Textwire syntax is emitted byte for byte; escapes, comments work",
 		Rules: []string{
+			"R-NILERR: a nil result of a parse function means an error was recorded",
 			"R-SLOTGAP: text tokens in front of a slot are stepped over in a loop that tests each token (whitespace only)",
 			"R-OUTPUT: EvaluateString and Template.String return the String() of the evaluated object unchanged",
 			"R-BODYENTRY / R-KEEP: the block parser is entered only on a token that is not a closer (a stray @end at top level does not end the template); parsed nodes are kept",
@@ -25,6 +26,7 @@ func init() {
 		NotDecided:  "TODO",
 		Assumptions: trustedBase,
 		Run: func(m *Model, s *Sink) {
+			m.RunNilErr(s, "R-NILERR")                                   // a parse function that gives up without an error drops what follows it: text goes missing silently
 			m.RunSlotGap(s, "R-SLOTGAP")                                 // the text the parser steps over before a slot is stepped over token by token, each one tested: no text token is merged with or skipped for another
 			m.RunOutputUnchanged(s, "R-OUTPUT")                          // the finished text is returned as it was printed
 			m.RunBodyEntry(s, "R-BODYENTRY")                             // the top level is not a block that a stray @end / @else closes: text after it is kept
